@@ -23,49 +23,51 @@ Theorem lifecycle_no_nested_collection : gc_set_defers_in_sweep = true.
 Proof. exact eq_refl. Qed.
 Print Assumptions lifecycle_no_nested_collection.
 
-(* for every history — any interleaving of new/new_root/new_raw, del/del_root/del_raw, ownership
+(* (the collection threshold rule gc_mitems_rule is read off the source as an expression; the
+   theorems below are instances of statements proved for EVERY rule: when a collection runs is tuning)
+   for every history — any interleaving of new/new_root/new_raw, del/del_root/del_raw, ownership
    links, forced and threshold collections with any slot order and any marks, stop/start, teardown
    — no destructor runs twice and memory is released exactly as often as the destructor ran *)
 Theorem lifecycle_finalised_at_most_once :
   forall (h : list ev) (x : nat),
-    let s := run gc_rem_pending_finalises gc_sweep_nulls_first gc_set_defers_in_sweep h in
+    let s := run gc_mitems_rule gc_rem_pending_finalises gc_sweep_nulls_first gc_set_defers_in_sweep h in
     fin_count s x <= 1 /\ free_count s x = fin_count s x.
-Proof. exact (finalised_at_most_once_sw _ _ _ eq_refl eq_refl eq_refl). Qed.
+Proof. exact (finalised_at_most_once_sw _ _ _ _ eq_refl eq_refl eq_refl). Qed.
 Print Assumptions lifecycle_finalised_at_most_once.
 
 (* the nested destructor calls through owning Boxes never exhaust the fuel of the model, and no
    sweep is left with a non-empty pending list *)
 Theorem lifecycle_fuel_adequate :
   forall h : list ev,
-    let s := run gc_rem_pending_finalises gc_sweep_nulls_first gc_set_defers_in_sweep h in
+    let s := run gc_mitems_rule gc_rem_pending_finalises gc_sweep_nulls_first gc_set_defers_in_sweep h in
     oof s = false /\ pend s = [].
-Proof. exact (fuel_adequate_sw _ _ _ eq_refl eq_refl eq_refl). Qed.
+Proof. exact (fuel_adequate_sw _ _ _ _ eq_refl eq_refl eq_refl). Qed.
 Print Assumptions lifecycle_fuel_adequate.
 
 (* del / del_root with the collector running, and del_raw always, finalise the object exactly
    once, at once *)
 Theorem lifecycle_explicit_delete_finalises :
   forall (h : list ev) (k : kind) (o : nat),
-    no_alloc_in_stop_window gc_rem_pending_finalises gc_sweep_nulls_first gc_set_defers_in_sweep h = true ->
-    let s := run gc_rem_pending_finalises gc_sweep_nulls_first gc_set_defers_in_sweep h in
+    no_alloc_in_stop_window gc_mitems_rule gc_rem_pending_finalises gc_sweep_nulls_first gc_set_defers_in_sweep h = true ->
+    let s := run gc_mitems_rule gc_rem_pending_finalises gc_sweep_nulls_first gc_set_defers_in_sweep h in
     torn s = false -> live s o = true -> kind_of s o = Some k ->
     (k = KRaw \/ running s = true) ->
-    let s' := run gc_rem_pending_finalises gc_sweep_nulls_first gc_set_defers_in_sweep (h ++ [EDel k o]) in
+    let s' := run gc_mitems_rule gc_rem_pending_finalises gc_sweep_nulls_first gc_set_defers_in_sweep (h ++ [EDel k o]) in
     fin_count s' o = 1 /\ free_count s' o = 1.
-Proof. exact (explicit_delete_finalises_sw _ _ _ eq_refl eq_refl eq_refl). Qed.
+Proof. exact (explicit_delete_finalises_sw _ _ _ _ eq_refl eq_refl eq_refl). Qed.
 Print Assumptions lifecycle_explicit_delete_finalises.
 
 (* through an owning Box: with the collector running, a delete of o finalises exactly once, at
    once, every object that o reaches through ownership (chains of Boxes of any length, cycles) *)
 Theorem lifecycle_delete_reaches_owned :
   forall (h : list ev) (k : kind) (o x : nat),
-    no_alloc_in_stop_window gc_rem_pending_finalises gc_sweep_nulls_first gc_set_defers_in_sweep h = true ->
-    let s := run gc_rem_pending_finalises gc_sweep_nulls_first gc_set_defers_in_sweep h in
+    no_alloc_in_stop_window gc_mitems_rule gc_rem_pending_finalises gc_sweep_nulls_first gc_set_defers_in_sweep h = true ->
+    let s := run gc_mitems_rule gc_rem_pending_finalises gc_sweep_nulls_first gc_set_defers_in_sweep h in
     torn s = false -> live s o = true -> kind_of s o = Some k -> running s = true ->
     Reach s o x ->
-    let s' := run gc_rem_pending_finalises gc_sweep_nulls_first gc_set_defers_in_sweep (h ++ [EDel k o]) in
+    let s' := run gc_mitems_rule gc_rem_pending_finalises gc_sweep_nulls_first gc_set_defers_in_sweep (h ++ [EDel k o]) in
     fin_count s' x = 1 /\ free_count s' x = 1.
-Proof. exact (delete_reaches_owned_sw _ _ _ eq_refl eq_refl eq_refl). Qed.
+Proof. exact (delete_reaches_owned_sw _ _ _ _ eq_refl eq_refl eq_refl). Qed.
 Print Assumptions lifecycle_delete_reaches_owned.
 
 (* a collection that reclaims a Box finalises exactly once everything the Box reaches through
@@ -73,29 +75,29 @@ Print Assumptions lifecycle_delete_reaches_owned.
    scenario) and every set of marks *)
 Theorem lifecycle_collect_reaches_owned :
   forall (h : list ev) (order marks : list nat) (b x : nat),
-    let s := run gc_rem_pending_finalises gc_sweep_nulls_first gc_set_defers_in_sweep h in
+    let s := run gc_mitems_rule gc_rem_pending_finalises gc_sweep_nulls_first gc_set_defers_in_sweep h in
     torn s = false -> running s = true ->
     In b (map fst (reg s)) -> is_root s b = false -> ~ In b marks ->
     Reach s b x ->
-    let s' := run gc_rem_pending_finalises gc_sweep_nulls_first gc_set_defers_in_sweep (h ++ [ECollect order marks]) in
+    let s' := run gc_mitems_rule gc_rem_pending_finalises gc_sweep_nulls_first gc_set_defers_in_sweep (h ++ [ECollect order marks]) in
     fin_count s' x = 1 /\ free_count s' x = 1.
-Proof. exact (collect_reaches_owned_sw _ _ _ eq_refl eq_refl eq_refl). Qed.
+Proof. exact (collect_reaches_owned_sw _ _ _ _ eq_refl eq_refl eq_refl). Qed.
 Print Assumptions lifecycle_collect_reaches_owned.
 
 Example lifecycle_reach_inhabited :
-  Reach (run true true true sample_history) 1 2 /\ Reach (run true true true sample_history) 3 4.
+  Reach (run mitems_rule true true true sample_history) 1 2 /\ Reach (run mitems_rule true true true sample_history) 3 4.
 Proof. exact sample_reach. Qed.
 
 (* after teardown (thread exit / Cello_Exit) every managed object ever allocated has been
    finalised exactly once and its memory released exactly once *)
 Theorem lifecycle_teardown_complete :
   forall (h : list ev) (order : list nat) (x : nat) (b : bool),
-    no_alloc_in_stop_window gc_rem_pending_finalises gc_sweep_nulls_first gc_set_defers_in_sweep h = true ->
-    let s := run gc_rem_pending_finalises gc_sweep_nulls_first gc_set_defers_in_sweep h in
+    no_alloc_in_stop_window gc_mitems_rule gc_rem_pending_finalises gc_sweep_nulls_first gc_set_defers_in_sweep h = true ->
+    let s := run gc_mitems_rule gc_rem_pending_finalises gc_sweep_nulls_first gc_set_defers_in_sweep h in
     torn s = false -> info s x = Some (KManaged, b) ->
-    let s' := run gc_rem_pending_finalises gc_sweep_nulls_first gc_set_defers_in_sweep (h ++ [ETeardown order]) in
+    let s' := run gc_mitems_rule gc_rem_pending_finalises gc_sweep_nulls_first gc_set_defers_in_sweep (h ++ [ETeardown order]) in
     fin_count s' x = 1 /\ free_count s' x = 1.
-Proof. exact (teardown_complete_sw _ _ _ eq_refl eq_refl eq_refl). Qed.
+Proof. exact (teardown_complete_sw _ _ _ _ eq_refl eq_refl eq_refl). Qed.
 Print Assumptions lifecycle_teardown_complete.
 
 (* the machine refines the specification `sp_run` (the oracle the check evaluates next to the real
@@ -106,13 +108,13 @@ Print Assumptions lifecycle_teardown_complete.
    teardown — has been finalised exactly once and released exactly once *)
 Theorem lifecycle_refines_spec :
   forall (h : list ev) (x : nat),
-    bad (run gc_rem_pending_finalises gc_sweep_nulls_first gc_set_defers_in_sweep h) = false ->
+    bad (run gc_mitems_rule gc_rem_pending_finalises gc_sweep_nulls_first gc_set_defers_in_sweep h) = false ->
     s_bad (sp_run h) = false ->
-    no_alloc_or_del_in_stop_window gc_rem_pending_finalises gc_sweep_nulls_first gc_set_defers_in_sweep h = true ->
+    no_alloc_or_del_in_stop_window gc_mitems_rule gc_rem_pending_finalises gc_sweep_nulls_first gc_set_defers_in_sweep h = true ->
     In x (s_must (sp_run h)) ->
-    fin_count (run gc_rem_pending_finalises gc_sweep_nulls_first gc_set_defers_in_sweep h) x = 1 /\
-    free_count (run gc_rem_pending_finalises gc_sweep_nulls_first gc_set_defers_in_sweep h) x = 1.
-Proof. exact (refines_spec_sw _ _ _ eq_refl eq_refl eq_refl). Qed.
+    fin_count (run gc_mitems_rule gc_rem_pending_finalises gc_sweep_nulls_first gc_set_defers_in_sweep h) x = 1 /\
+    free_count (run gc_mitems_rule gc_rem_pending_finalises gc_sweep_nulls_first gc_set_defers_in_sweep h) x = 1.
+Proof. exact (refines_spec_sw _ _ _ _ eq_refl eq_refl eq_refl). Qed.
 Print Assumptions lifecycle_refines_spec.
 
 (* the fuel of the specification's ownership chain is never what stops it (so the oracle demands
@@ -122,7 +124,7 @@ Theorem lifecycle_spec_chain_fuel_adequate :
     let p := sp_run h in
     chain (S (length (s_ids p)) + k) (s_owned p) (s_must p) (s_live p) o =
     chain (S (length (s_ids p))) (s_owned p) (s_must p) (s_live p) o.
-Proof. exact spec_chain_fuel_adequate. Qed.
+Proof. exact (spec_chain_fuel_adequate mitems_rule). Qed.
 Print Assumptions lifecycle_spec_chain_fuel_adequate.
 
 Example lifecycle_spec_inhabited :
@@ -132,18 +134,18 @@ Proof. exact sample_spec_must. Qed.
 (* non-vacuity with allocating destructors: the objects 10 and 11 allocated by the destructor of 1
    are managed objects of the machine; teardown finalises them *)
 Example lifecycle_alloc_inhabited :
-  let s := run true true true alloc_history in
-  no_alloc_or_del_in_stop_window true true true alloc_history = true /\ bad s = false /\ torn s = false /\
+  let s := run mitems_rule true true true alloc_history in
+  no_alloc_or_del_in_stop_window mitems_rule true true true alloc_history = true /\ bad s = false /\ torn s = false /\
   fin_count s 1 = 1 /\ fin_count s 2 = 1 /\
   info s 10 = Some (KManaged, false) /\ info s 11 = Some (KManaged, false) /\
-  fin_count (run true true true (alloc_history ++ [ETeardown []])) 11 = 1.
+  fin_count (run mitems_rule true true true (alloc_history ++ [ETeardown []])) 11 = 1.
 Proof. exact alloc_history_ok. Qed.
 
 (* non-vacuity of the hypotheses of the theorems above *)
 Example lifecycle_hypotheses_inhabited :
-  let s := run true true true sample_history in
-  no_alloc_or_del_in_stop_window true true true sample_history = true /\
-  no_alloc_in_stop_window true true true sample_history = true /\
+  let s := run mitems_rule true true true sample_history in
+  no_alloc_or_del_in_stop_window mitems_rule true true true sample_history = true /\
+  no_alloc_in_stop_window mitems_rule true true true sample_history = true /\
   torn s = false /\ bad s = false /\ running s = true /\
   live s 1 = true /\ kind_of s 1 = Some KManaged /\ info s 6 = Some (KManaged, false) /\
   live s 3 = true /\ kind_of s 3 = Some KRoot /\ fin_count s 7 = 1 /\ fin_count s 8 = 1.
@@ -152,8 +154,8 @@ Proof. exact sample_history_ok. Qed.
 (* D18, pinned code (GC_Rem_Ptr only clears the pending entry): an object owned by a Box swept in
    the same collection and met first is never finalised, not even at teardown *)
 Theorem lifecycle_d18_refuted_pinned :
-  let s := run false false true d18_history in
-  no_alloc_or_del_in_stop_window false false true d18_history = true /\ bad s = false /\ torn s = true /\
+  let s := run mitems_rule false false true d18_history in
+  no_alloc_or_del_in_stop_window mitems_rule false false true d18_history = true /\ bad s = false /\ torn s = true /\
   info s 2 = Some (KManaged, false) /\ fin_count s 2 = 0 /\ free_count s 2 = 0.
 Proof. exact LifecycleProofs.lifecycle_d18_refuted_pinned. Qed.
 Print Assumptions lifecycle_d18_refuted_pinned.
@@ -161,8 +163,8 @@ Print Assumptions lifecycle_d18_refuted_pinned.
 (* D22, pinned GC_Set (collection started from inside the running sweep by an allocating
    destructor): the nested sweep takes over the one pending list; object 1 is never finalised *)
 Theorem lifecycle_d22_refuted_pinned :
-  let s := run true true false d22_history in
-  no_alloc_or_del_in_stop_window true true false d22_history = true /\ bad s = false /\ torn s = true /\
+  let s := run mitems_rule true true false d22_history in
+  no_alloc_or_del_in_stop_window mitems_rule true true false d22_history = true /\ bad s = false /\ torn s = true /\
   info s 1 = Some (KManaged, false) /\ fin_count s 1 = 0 /\ free_count s 1 = 0.
 Proof. exact LifecycleProofs.lifecycle_d22_refuted_pinned. Qed.
 Print Assumptions lifecycle_d22_refuted_pinned.
@@ -170,14 +172,14 @@ Print Assumptions lifecycle_d22_refuted_pinned.
 (* only half of the repair (the sweep calls the destructor before clearing the entry): a Box that
    owns itself is finalised twice *)
 Theorem lifecycle_sweep_order_refuted_half_repair :
-  let s := run true false true selfbox_history in bad s = false /\ fin_count s 1 = 2 /\ free_count s 1 = 2.
+  let s := run mitems_rule true false true selfbox_history in bad s = false /\ fin_count s 1 = 2 /\ free_count s 1 = 2.
 Proof. exact LifecycleProofs.lifecycle_sweep_order_refuted_half_repair. Qed.
 Print Assumptions lifecycle_sweep_order_refuted_half_repair.
 
 (* F2 (open finding): without the stop-window hypothesis teardown leaves an object behind *)
 Theorem lifecycle_stop_window_refuted :
-  let s := run true true true stop_window_history in
-  no_alloc_in_stop_window true true true stop_window_history = false /\ bad s = false /\ torn s = true /\
+  let s := run mitems_rule true true true stop_window_history in
+  no_alloc_in_stop_window mitems_rule true true true stop_window_history = false /\ bad s = false /\ torn s = true /\
   info s 1 = Some (KManaged, false) /\ fin_count s 1 = 0.
 Proof. exact LifecycleProofs.lifecycle_stop_window_refuted. Qed.
 Print Assumptions lifecycle_stop_window_refuted.
@@ -192,42 +194,42 @@ Print Assumptions lifecycle_stop_window_refuted.
    exactly once by the time the process is gone *)
 Theorem lifecycle_terminate_complete :
   forall (r : route) (h : list ev) (order : list nat) (x : nat) (b : bool),
-    no_alloc_in_stop_window gc_rem_pending_finalises gc_sweep_nulls_first gc_set_defers_in_sweep h = true ->
-    let s := run gc_rem_pending_finalises gc_sweep_nulls_first gc_set_defers_in_sweep h in
+    no_alloc_in_stop_window gc_mitems_rule gc_rem_pending_finalises gc_sweep_nulls_first gc_set_defers_in_sweep h = true ->
+    let s := run gc_mitems_rule gc_rem_pending_finalises gc_sweep_nulls_first gc_set_defers_in_sweep h in
     torn s = false -> info s x = Some (KManaged, b) ->
-    let s' := terminate gc_rem_pending_finalises gc_sweep_nulls_first gc_set_defers_in_sweep
+    let s' := terminate gc_mitems_rule gc_rem_pending_finalises gc_sweep_nulls_first gc_set_defers_in_sweep
                         main_registers_atexit main_tears_down_after_return exception_error_exits r order s in
     (fin_count s' x = 1 /\ free_count s' x = 1) /\ torn s' = true.
-Proof. exact (terminate_complete_sw _ _ _ _ _ _ eq_refl eq_refl eq_refl eq_refl eq_refl eq_refl). Qed.
+Proof. exact (terminate_complete_sw _ _ _ _ _ _ _ eq_refl eq_refl eq_refl eq_refl eq_refl eq_refl). Qed.
 Print Assumptions lifecycle_terminate_complete.
 
 (* a wrapper that tears down only after Cello_Main has returned (no atexit): exit() below main and an
    uncaught throw leave every managed object behind; returning from main is fine *)
 Theorem lifecycle_terminate_refuted_without_atexit :
-  let s := terminate true true true false true true RExit [] (run true true true exit_history) in
-  no_alloc_in_stop_window true true true exit_history = true /\ bad s = false /\ torn s = false /\
+  let s := terminate mitems_rule true true true false true true RExit [] (run mitems_rule true true true exit_history) in
+  no_alloc_in_stop_window mitems_rule true true true exit_history = true /\ bad s = false /\ torn s = false /\
   info s 1 = Some (KManaged, false) /\ fin_count s 1 = 0 /\ fin_count s 2 = 0 /\
-  fin_count (terminate true true true false true true RThrow [] (run true true true exit_history)) 1 = 0 /\
-  fin_count (terminate true true true false true true RReturn [] (run true true true exit_history)) 1 = 1.
+  fin_count (terminate mitems_rule true true true false true true RThrow [] (run mitems_rule true true true exit_history)) 1 = 0 /\
+  fin_count (terminate mitems_rule true true true false true true RReturn [] (run mitems_rule true true true exit_history)) 1 = 1.
 Proof. exact terminate_refuted_without_atexit. Qed.
 Print Assumptions lifecycle_terminate_refuted_without_atexit.
 
 (* an Exception_Error that can leave without exit() (_Exit, abort, ...): uncaught exceptions — a
    signal turned into an exception, any throw after one — leave the managed objects behind *)
 Theorem lifecycle_terminate_refuted_error_without_exit :
-  let s := terminate true true true true false false RSigUncaught [] (run true true true exit_history) in
+  let s := terminate mitems_rule true true true true false false RSigUncaught [] (run mitems_rule true true true exit_history) in
   bad s = false /\ torn s = false /\ info s 1 = Some (KManaged, false) /\ fin_count s 1 = 0 /\ fin_count s 2 = 0 /\
-  fin_count (terminate true true true true false false RSigCaughtThrow [] (run true true true exit_history)) 1 = 0 /\
-  fin_count (terminate true true true true false false RSigCaughtReturn [] (run true true true exit_history)) 1 = 1 /\
-  fin_count (terminate true true true true false false RSigCaughtExit [] (run true true true exit_history)) 1 = 1.
+  fin_count (terminate mitems_rule true true true true false false RSigCaughtThrow [] (run mitems_rule true true true exit_history)) 1 = 0 /\
+  fin_count (terminate mitems_rule true true true true false false RSigCaughtReturn [] (run mitems_rule true true true exit_history)) 1 = 1 /\
+  fin_count (terminate mitems_rule true true true true false false RSigCaughtExit [] (run mitems_rule true true true exit_history)) 1 = 1.
 Proof. exact terminate_refuted_error_without_exit. Qed.
 Print Assumptions lifecycle_terminate_refuted_error_without_exit.
 
 Example lifecycle_terminate_inhabited :
-  no_alloc_in_stop_window true true true exit_history = true /\ torn (run true true true exit_history) = false /\
-  info (run true true true exit_history) 1 = Some (KManaged, false) /\
-  fin_count (terminate true true true true false true RExit [] (run true true true exit_history)) 2 = 1 /\
-  fin_count (terminate true true true true false true RSigUncaught [] (run true true true exit_history)) 2 = 1.
+  no_alloc_in_stop_window mitems_rule true true true exit_history = true /\ torn (run mitems_rule true true true exit_history) = false /\
+  info (run mitems_rule true true true exit_history) 1 = Some (KManaged, false) /\
+  fin_count (terminate mitems_rule true true true true false true RExit [] (run mitems_rule true true true exit_history)) 2 = 1 /\
+  fin_count (terminate mitems_rule true true true true false true RSigUncaught [] (run mitems_rule true true true exit_history)) 2 = 1.
 Proof. exact exit_history_ok. Qed.
 
 (* ---------------------------------------------------------------------------------------------
@@ -248,7 +250,7 @@ Proof. exact exit_history_ok. Qed.
 Theorem lifecycle_glue_sweep : forall hashf d, boxlike d -> forall A g s g',
   TabM hashf g -> RM.pending g = [] -> Rel d g s -> GInv A s ->
   RP.Gsweep hashf d true true g = Some g' ->
-  Tab hashf g' /\ Rel d g' (sweep true (fin_top true true true) (c_order g) (c_marks g) s) /\
+  Tab hashf g' /\ Rel d g' (sweep mitems_rule true (fin_top mitems_rule true true true) (c_order g) (c_marks g) s) /\
   RM.pending g' = [] /\ Mono g g'.
 Proof. exact glue_sweep_thm. Qed.
 Print Assumptions lifecycle_glue_sweep.
@@ -258,7 +260,7 @@ Print Assumptions lifecycle_glue_sweep.
 Theorem lifecycle_glue_rem : forall hashf d, boxlike d -> forall f A g s p g',
   Tab hashf g -> Rel d g s -> GInv A s ->
   RP.Grem hashf d true f g p = Some g' ->
-  Tab hashf g' /\ Rel d g' (gc_rem true (fin_top true true true) s (idn p)) /\ Mono g g'.
+  Tab hashf g' /\ Rel d g' (gc_rem mitems_rule true (fin_top mitems_rule true true true) s (idn p)) /\ Mono g g'.
 Proof. exact glue_rem_thm. Qed.
 Print Assumptions lifecycle_glue_rem.
 
